@@ -295,7 +295,7 @@ impl Harness for ConnDataHarness {
         let weak = cfg.weak;
         let keep: Arc<Mutex<Vec<Box<dyn std::any::Any + Send>>>> = Arc::new(Mutex::new(Vec::new()));
         let keep2 = keep.clone();
-        let report = sim::run(cfg.to_cfg(), dec, move || {
+        let report = sim_run(cfg.to_cfg(), dec, move || {
             let sh = sh2;
             let (sops, rops) = (plan2.threads[0].clone(), plan2.threads[1].clone());
             let st = {
@@ -476,7 +476,7 @@ impl Harness for ConnLifecycleHarness {
         let sh = Arc::new(Mutex::new(LShared::default()));
         let sh2 = sh.clone();
         let plan2 = plan.clone();
-        let report = sim::run(cfg.to_cfg(), dec, move || {
+        let report = sim_run(cfg.to_cfg(), dec, move || {
             let sh = sh2;
             let mut hs = Vec::new();
             for (t, ops) in plan2.threads.iter().enumerate() {
